@@ -20,6 +20,8 @@ def spec_step(lst, op, i, st):
         return lst[:op[1]] + lst[op[1] + 1:] if op[1] < len(lst) else lst
     if k in ('p', 'q'):
         return lst[:op[1]] + [i] + lst[op[1] + 1:] if op[1] < len(lst) else lst
+    if k == 'e':
+        return lst + [lst[op[1]]] if op[1] < len(lst) else lst
     return lst
 
 
